@@ -132,15 +132,14 @@ def writeTags (o : OutCursor) : List PppoeTag → Out OutCursor
     let o ← o.write t.data                                   -- stream.write(it->data_ptr(), it->data_size())
     writeTags o ts
 
-/-- the payload length `write_serialization` stores: the tags' size, else the inner PDU's size, else 0 -/
-def lengthFor (cx : Ctx) (p : PPPoE) : Nat :=
-  if p.tagsSize > 0 then p.tagsSize % 65536
-  else if !cx.inners.isEmpty then cx.innerSize % 65536
-  else 0
+/-- the payload length `write_serialization` stores: everything behind the 6-byte header of the region it is given
+    (`total_sz - sizeof(header_)`, as `uint16_t`) when there are tags or an inner PDU, else 0 -/
+def lengthFor (cx : Ctx) (p : PPPoE) (total : Nat) : Nat :=
+  if p.tagsSize > 0 || !cx.inners.isEmpty then (total - 6) % 65536 else 0
 
 /-- `PPPoE::write_serialization` -/
 def write (cx : Ctx) (p : PPPoE) (region : Bytes) : Out Bytes := do
-  let p1 := { p with payloadLength := lengthFor cx p }
+  let p1 := { p with payloadLength := lengthFor cx p region.length }
   let o ← (OutCursor.ofRegion region).write p1.headerBytes
   let o ← writeTags o p1.tags
   pure o.buffer
